@@ -1,11 +1,12 @@
 #!/bin/bash
 # Runs every behaviour-preserving refactoring under /verif/preserving/ through all quick checks (scratch worktrees of /repo HEAD).
-# A report on any of them is a false alarm of the checker.  usage: preserve_check.sh [jobs]
+# A report on any of them is a false alarm of the checker.  usage: preserve_check.sh [jobs] [id prefix, e.g. PW4_]
 jobs=${1:-6}
+pat=${2:-}
 out=/tmp/wt/preserve_results; rm -rf $out; mkdir -p $out
 one() { d=$1; id=$(basename $d); /verif/tools/seedcheck.sh $d/patch.diff > $out/$id.tmp 2>&1; grep -E "^== C[0-9]+ rc=[12]|broken:|ANALYSIS-ERROR|does not apply" $out/$id.tmp | cut -c1-300 > $out/$id.txt; [ -s $out/$id.txt ] || echo SILENT > $out/$id.txt; }
 export -f one; export out
-ls -d /verif/preserving/*/ | xargs -P $jobs -I{} bash -c 'one {}'
+ls -d /verif/preserving/${pat}*/ | xargs -P $jobs -I{} bash -c 'one {}'
 n=$(ls $out/*.txt | wc -l); s=$(grep -l SILENT $out/*.txt | wc -l)
 echo "preserving refactorings: $n, silent: $s, false alarms: $((n-s))"
 for f in $out/*.txt; do grep -q SILENT $f || { echo "### $(basename $f .txt)"; cat $f; }; done
